@@ -6,6 +6,7 @@ import datetime
 import enum
 
 import attr
+import dateutil.tz
 import six
 
 from cryptodatahub.common.algorithm import Authentication, NamedGroup, Signature
@@ -407,6 +408,10 @@ class DnsRecordRrsig(ParsableBase):  # pylint: disable=too-many-instance-attribu
         metadata={'human_friendly': False}
     )
 
+    @staticmethod
+    def _parse_time(value):
+        return datetime.datetime.fromtimestamp(value, dateutil.tz.UTC)
+
     @classmethod
     def _parse(cls, parsable):
         if len(parsable) < cls.HEADER_SIZE:
@@ -421,8 +426,9 @@ class DnsRecordRrsig(ParsableBase):  # pylint: disable=too-many-instance-attribu
         parser.parse_parsable('algorithm', DnsSecAlgorithmFactory)
         parser.parse_numeric('labels', 1)
         parser.parse_numeric('original_ttl', 4)
-        parser.parse_timestamp('signature_expiration', item_size=4)
-        parser.parse_timestamp('signature_inception', item_size=4)
+        # all 32 bits are time here (RFC 4034 3.1.5): ffffffff is a date in 2106, not a "no expiry" marker
+        parser.parse_numeric('signature_expiration', 4, cls._parse_time)
+        parser.parse_numeric('signature_inception', 4, cls._parse_time)
         parser.parse_numeric('key_tag', 2)
         parser.parse_parsable('signers_name', DnsNameUncompressed)
         parser.parse_raw('signature', parser.unparsed_length)
